@@ -1196,6 +1196,16 @@ func TestVerifWireCases(t *testing.T) {
 					b, _ := json.Marshal(l)
 					w.Write(b)
 					w.WriteByte('\n')
+					if p >= 5000 {
+						// the large sizes also with the sender's compression setting flipped (an uncompressed, unencrypted
+						// stream is read from the connection in pieces; a compressed or sealed one from memory)
+						c2 := c
+						c2.S.Comp = !c.S.Comp
+						l := vWRun(t, s, ids[i], c2)
+						b, _ := json.Marshal(l)
+						w.Write(b)
+						w.WriteByte('\n')
+					}
 				}
 				w.Flush()
 			}
